@@ -118,6 +118,7 @@ func props() []prop {
 			Units: []unit{
 				{Check: "startstopnet", Pkg: "internal/actor", Shards: [2]int{7, 7}, Timeout: [2]time.Duration{10 * min, 40 * min}, CrashKey: "c07-crash", HangKind: "c07-hang", OnlyKinds: []string{"c07-", "harness-"}},
 				{Check: "startstop", Pkg: "internal/actor", Shards: [2]int{8, 16}, Timeout: [2]time.Duration{6 * min, 40 * min}, CrashKey: "c07-crash", HangKind: "c07-hang", OnlyKinds: []string{"c07-", "harness-"}},
+				{Check: "oddnames", Pkg: "internal/actor", Shards: [2]int{8, 8}, Timeout: [2]time.Duration{6 * min, 10 * min}, CrashKey: "c07-crash", HangKind: "c07-hang", OnlyKinds: []string{"c07-", "harness-"}},
 				{Check: "startstopinject", Pkg: "internal/actor", Instr: []string{"internal/actor/system.go"}, Shards: [2]int{8, 16}, Timeout: [2]time.Duration{6 * min, 40 * min}, CrashKey: "c07-crash", HangKind: "c07-hang", OnlyKinds: []string{"c07-", "harness-"}},
 			},
 		},
@@ -198,6 +199,7 @@ func props() []prop {
 				{Check: "histories", Pkg: "internal/actor", Shards: [2]int{8, 16}, Timeout: [2]time.Duration{6 * min, 40 * min}, CrashKey: "c03-crash", OnlyKinds: []string{"c03-", "harness-"}},
 				{Check: "supmatrix", Pkg: "internal/actor", Shards: [2]int{8, 16}, Timeout: [2]time.Duration{5 * min, 30 * min}, OnlyKinds: []string{"c03-"}},
 				{Check: "unstuck", Pkg: "internal/actor", Shards: [2]int{8, 16}, Timeout: [2]time.Duration{5 * min, 30 * min}, OnlyKinds: []string{"c03-"}},
+				{Check: "stashmodel", Pkg: "internal/actor", Shards: [2]int{8, 16}, Timeout: [2]time.Duration{5 * min, 30 * min}, OnlyKinds: []string{"c03-"}},
 				{Check: "mailboxsched", Pkg: "internal/mailbox", Instr: []string{"internal/mailbox/unbounded_mailbox.go"}, Shards: [2]int{8, 16}, Timeout: [2]time.Duration{5 * min, 40 * min}, OnlyKinds: []string{"lost-message", "lost-wakeup", "duplicate-delivery"}},
 			},
 		},
